@@ -134,6 +134,17 @@ theorem frames_splitBlock (fuel : Nat) : ∀ (maxFrame kind flags sid : Nat) (pr
       rw [this, frames_nil]
       simp [contFrames]
 
+/-- `parse_split_block`: the name used in the plan for `frames_splitBlock` -/
+theorem parse_split_block (fuel maxFrame kind flags sid : Nat) (pre hpack : Bytes) (F maxSize : Nat)
+    (hpre : pre.length < maxFrame) (hmax : maxFrame < 2 ^ 24) (hs0 : sid ≠ 0) (hs : sid < 2 ^ 31)
+    (hfuel : hpack.length < fuel) (hF : fuel < F) (hms : maxFrame ≤ maxSize) :
+    ∃ frag0 frags, frag0 ++ frags.flatten = hpack ∧ pre.length + frag0.length ≤ maxFrame ∧
+      (∀ f ∈ frags, f.length ≤ maxFrame) ∧
+      Spec.Frame.frames F maxSize (splitBlock fuel maxFrame kind flags sid pre hpack) =
+        (Spec.Frame.ofParts kind (if frags.isEmpty then flags else flags - 4) sid (pre ++ frag0)
+          :: (contFrames sid frags).map .ok, []) :=
+  frames_splitBlock fuel maxFrame kind flags sid pre hpack F maxSize hpre hmax hs0 hs hfuel hF hms
+
 /-- the CONTINUATION chain `unset_frame` produces for the rest of a block -/
 theorem parse_split_block_continuation (fuel maxFrame sid : Nat) (hpack : Bytes) (F maxSize : Nat)
     (h0 : 0 < maxFrame) (hmax : maxFrame < 2 ^ 24) (hs0 : sid ≠ 0) (hs : sid < 2 ^ 31)
